@@ -251,7 +251,8 @@ def monC19 (h : Hist) : Option String :=
   -- distinct (resource, Vary value, selecting values) of the plain GETs of the history
   let combos := (h.reqs.flatMap fun ri =>
     (h.replies.filter (·.n = ri.n)).map fun rp =>
-      let members := varyMembers rp.resp.header
+      -- a Vary value with a "*" member is the one unusable variant {*}, however it is spelled
+      let members := if (varyMembers rp.resp.header).contains ['*'] then [['*']] else varyMembers rp.resp.header
       (normOf ri, members, members.map fun f => (Spec.combined ri.req.header f).getD [])).eraseDups
   let bound := urls.length + combos.length
   first? [
